@@ -22,6 +22,36 @@ fn main() {
         usage();
     }
     let engine = args[0].clone();
+    if engine == "vectors" {
+        // reference vectors for the cross-target conversions pass (tools/cross_target.py): computed by the
+        // BigUint reference model only, one per line
+        use num_bigint::BigUint;
+        use simcore::decaf as rd;
+        use simcore::digest::hex;
+        let f = simcore::field::fq();
+        for k in [0u64, 1, 2, 3, 4, 5, 6, 7, 8, (1 << 20) + 3] {
+            let p = rd::scalar_mul(&BigUint::from(k), rd::generator());
+            println!("V:{}:{}", hex(&rd::encode(&p).expect("encode")), k);
+        }
+        let le = |x: &BigUint| {
+            let mut v = x.to_bytes_le();
+            v.resize(32, 0);
+            hex(&v)
+        };
+        println!("I:{}", le(&f.p));
+        println!("I:{}", le(&(&f.p - 1u32)));
+        println!("I:{}", le(&(&f.p + 8u32)));
+        println!("I:{}", le(&(&f.p - 8u32)));
+        println!("I:{}", le(&BigUint::from(9u32)));
+        println!("I:{}", hex(&[0xffu8; 32]));
+        let mut hb = [0u8; 32];
+        hb[0] = 8;
+        hb[31] = 0x20;
+        println!("I:{}", hex(&hb));
+        let corpus = io::gen::Corpus::build(0xC0FFEE);
+        println!("I:{}", hex(&corpus.nonsquare[0]));
+        std::process::exit(0);
+    }
     let mut prop: Option<String> = None;
     let mut replay: Option<PathBuf> = None;
     let mut quiet = false;
@@ -38,6 +68,7 @@ fn main() {
         replay_dir: verif.join("replays"),
         known_path: verif.join("known_findings.txt"),
         dump_digest: None,
+        amend_evidence: false,
     };
     let mut i = 1;
     while i < args.len() {
@@ -58,6 +89,7 @@ fn main() {
             "--known" => opts.known_path = PathBuf::from(val()),
             "--dump-digest" => opts.dump_digest = Some(PathBuf::from(val())),
             "--quiet" => quiet = true,
+            "--amend-evidence" => opts.amend_evidence = true,
             _ => usage(),
         }
         i += 1;
